@@ -221,7 +221,6 @@ CONSTANTS Alphabet,      \* bytes payloads are made of
 MCSizes == {-1, 0, 1, 2, 3}
 MCRunes == {-1, -191, 65, 233, 8364, 55296, 1114112}   \* raw bytes FF and 'A' under the deviation
 MCSizesBig == {-1, 0, 1, 2, 3, 4}
-MCRunesBig == MCRunes \cup {-2147483647, 0, 127, 128, 2047, 2048, 57343, 57344, 65535, 65536, 128512, 1114111}
 
 RECURSIVE BSeq(_, _)
 BSeq(S, n) == IF n = 0 THEN {<<>>}
